@@ -891,8 +891,8 @@ func ruleSLOOP(p *Program, r *Reporter) {
 			}
 		}
 	}
-	if n < 2 {
-		r.Anchor(id, fmt.Sprintf("filter/filter2: %d in-loop container writes, expected >= 2", n))
+	if n < 1 {
+		r.Anchor(id, fmt.Sprintf("filter/filter2: %d in-loop container writes, expected >= 1", n))
 	}
 }
 
